@@ -65,7 +65,52 @@ def to_smt2(hyps, goal, rules=None):
     return s.to_smt2()
 
 
+_G = {}
+
+
+def _work(i):
+    """runs in a forked child: builds the SMT-LIB text (ground rule instances included) and solves it"""
+    ob = _G["obs"][i]
+    try:
+        text = to_smt2(list(ob.hyps) + _G["extra"], ob.goal, _G["rules"])
+    except Exception as e:  # noqa
+        return i, "error", 0.0, f"smt2 generation: {e!r}"[:400], "z3"
+    return _solve_smt2((i, text, Z3_TIMEOUT_MS, _G["seed"]))
+
+
 def discharge(obligations, rules=None, seed=0, jobs=None, extra_axioms=None):
+    return _discharge_forked(obligations, rules, seed, jobs, extra_axioms)
+
+
+def _discharge_forked(obligations, rules=None, seed=0, jobs=None, extra_axioms=None):
+    import multiprocessing as mp
+    todo = []
+    for i, ob in enumerate(obligations):
+        if ob.syntactic is not None:
+            ok, why = ob.syntactic
+            ob.result = {"verdict": "unsat" if ok else "sat", "time": 0.0, "model": why, "backend": "syntactic"}
+            continue
+        g = z3.simplify(ob.goal)
+        if z3.is_true(g):
+            ob.result = {"verdict": "unsat", "time": 0.0, "model": "", "backend": "simplify"}
+            continue
+        todo.append(i)
+    if not todo:
+        return obligations
+    _G.update(obs=obligations, rules=rules, seed=seed, extra=list(extra_axioms or []))
+    jobs = jobs or min(16, max(1, os.cpu_count() or 1))
+    if len(todo) < 4 or jobs == 1:
+        results = [_work(i) for i in todo]
+    else:
+        ctx = mp.get_context("fork")
+        with ctx.Pool(processes=jobs) as pool:
+            results = pool.map(_work, todo, chunksize=max(1, len(todo) // (jobs * 6)))
+    for idx, res, dt, model, backend in results:
+        obligations[idx].result = {"verdict": res, "time": dt, "model": model, "backend": backend}
+    return obligations
+
+
+def _discharge_serial_gen(obligations, rules=None, seed=0, jobs=None, extra_axioms=None):
     """decide every obligation; sets ob.result = dict(verdict, time, model, backend)"""
     tasks = []
     for i, ob in enumerate(obligations):
